@@ -533,3 +533,88 @@ def unroll_literal_loops(func, max_items=12):
     set_parents(f)
     f._parent = None
     return f
+
+
+def publish_locals(func):
+    """Normal form for locals that only NAME an object on its way into an attribute:
+        v = E ; T = v      ->  T = E      (later reads of v become T)
+        v = E ; T = [v]    ->  T = [E]    (later reads of v become T[-1])
+    where T is `self.<attr>` or `self.<attr>[<index>]`, v is assigned exactly once and is not read
+    between its definition and the publishing store. A refactoring that introduces such names
+    (`residual = ..; self.rs[-1] = residual`) leaves the sequence of effects on the attributes
+    unchanged; rules that compare these effects see one shape."""
+    import copy
+    f = copy.deepcopy(func)
+
+    class Repl(ast.NodeTransformer):
+        def __init__(self, name, expr):
+            self.name, self.expr = name, expr
+
+        def visit_Name(self, n):
+            if n.id == self.name and isinstance(n.ctx, ast.Load):
+                return copy.deepcopy(self.expr)
+            return n
+
+    def is_target(t):
+        b = t
+        while isinstance(b, ast.Subscript):
+            b = b.value
+        return isinstance(b, ast.Attribute) and isinstance(b.value, ast.Name) and b.value.id == 'self'
+    changed = True
+    while changed:
+        changed = False
+        stores = {}
+        for n in ast.walk(f):
+            if isinstance(n, ast.Name) and isinstance(n.ctx, ast.Store):
+                stores[n.id] = stores.get(n.id, 0) + 1
+        for blk_owner in ast.walk(f):
+            for fld in ('body', 'orelse', 'finalbody'):
+                blk = getattr(blk_owner, fld, None)
+                if not isinstance(blk, list):
+                    continue
+                for i, st in enumerate(blk):
+                    if not (isinstance(st, ast.Assign) and len(st.targets) == 1 and isinstance(
+                            st.targets[0], ast.Name) and stores.get(st.targets[0].id) == 1):
+                        continue
+                    v = st.targets[0].id
+                    for j in range(i + 1, len(blk)):
+                        s2 = blk[j]
+                        reads = [x for x in ast.walk(s2) if isinstance(x, ast.Name) and x.id == v]
+                        if not reads:
+                            continue
+                        pub = None
+                        if isinstance(s2, ast.Assign) and len(s2.targets) == 1 and is_target(
+                                s2.targets[0]) and len(reads) == 1:
+                            if isinstance(s2.value, ast.Name) and s2.value.id == v:
+                                pub = ('plain', s2.targets[0])
+                            elif isinstance(s2.value, ast.List) and len(s2.value.elts) == 1 and \
+                                    isinstance(s2.value.elts[0], ast.Name) and \
+                                    s2.value.elts[0].id == v:
+                                pub = ('list', s2.targets[0])
+                        if pub is None:
+                            break
+                        kind, tgt = pub
+                        loc = copy.deepcopy(tgt)
+                        for x in ast.walk(loc):
+                            if hasattr(x, 'ctx'):
+                                x.ctx = ast.Load()
+                        if kind == 'plain':
+                            s2.value = st.value
+                            after = loc
+                        else:
+                            s2.value = ast.List(elts=[st.value], ctx=ast.Load())
+                            after = ast.Subscript(value=loc, slice=ast.UnaryOp(
+                                op=ast.USub(), operand=ast.Constant(value=1)), ctx=ast.Load())
+                        for k in range(j + 1, len(blk)):
+                            blk[k] = Repl(v, after).visit(blk[k])
+                        del blk[i]
+                        ast.fix_missing_locations(f)
+                        changed = True
+                        break
+                    if changed:
+                        break
+                if changed:
+                    break
+            if changed:
+                break
+    return f
